@@ -380,3 +380,497 @@ Print Assumptions C10_literal_hamlet.
 Print Assumptions C10_denotes_hamlet.
 Print Assumptions C10_comma_middle_hamlet.
 Print Assumptions C10_literal_middle_hamlet.
+
+(** ** The algebra for the TREE finder FindInPaths (Search/AlgebraTreeDefs.v, AlgebraTreeProofs.v)
+
+    For a data set E (list of Sids) materialised as a file tree F ([dataset_ok Ld cfg E F] of C11), a configuration passing
+    [unfold_conf_okb] and [paths_unambiguousb], and a search string s in the guarded fragment whose typed searches (what
+    [Finder.find] hands to the star search: [find_searches Ld s], the Sid itself or the unfolding) satisfy the hypotheses of
+    C11_tree_eq_list ([tree_guard Ld cfg E s] = [searches_ok] /\ [pat_inj] /\ [types_covered]; decidable: [tree_guardb]):
+    FindInPaths.find(s) returns, without duplicates, exactly the strings of the members of E that s matches, i.e. the same set
+    as FindInList over the strings of E; hence all FIVE rules hold for the tree finder as set equalities.
+    - [nosort] is NOT a hypothesis here: [searches_ok] already excludes ">" ([tree_guard_nosort]).
+    - no extra conjunct "the type of e has a path template": every member of E has a path by [dataset_ok].
+    - no duplicates needs no hypothesis on the tree beyond [dataset_ok]: a path globbed by the pattern of a good search that
+      resolves to a Sid has as many components as its normal form, hence IS the path of that Sid ([hit_path_own]), so two hits
+      with the same Sid string come from the same path ([paths_star_NoDup_dataset]).
+    - without [types_covered] the tree finder returns the members matched by a typed search OF THEIR OWN TYPE
+      ([C10_find_paths_denotes_typed]): a subset of the list answer. *)
+From Spil Require Import Conf.Routing FS.Fs Path.UnambiguousDefs Search.Finders Search.TreeListDefs Search.TreeListProofs
+  Search.LastAgreeProofs Search.AlgebraTreeDefs Search.AlgebraTreeProofs.
+
+(* rule 0: what a tree search returns *)
+Theorem C10_find_paths_denotes :
+  forall (c : Conf) (Ld : Loaded),
+  load c = Some Ld ->
+  wf_loadedb Ld = true ->
+  unfold_conf_okb Ld = true ->
+  paths_unambiguousb Ld = true ->
+  forall (cfg : string) (E : list sid) (F : fs),
+  dataset_ok Ld cfg E F ->
+  forall (id s : string) (l : list string),
+  search_ok s = true ->
+  shortcut_okb Ld s = true ->
+  tree_guard Ld cfg E s ->
+  ffind Ld F (FPaths id cfg) s = Ok l ->
+  NoDup l /\ (forall e : string, In e l <-> In e (map s_string E) /\ matched Ld s e).
+Proof. exact find_paths_denotes. Qed.
+Print Assumptions C10_find_paths_denotes.
+
+(* ... under the guard of the list finder *)
+Theorem C10_find_paths_denotes_guarded :
+  forall (c : Conf) (Ld : Loaded),
+  load c = Some Ld ->
+  wf_loadedb Ld = true ->
+  unfold_conf_okb Ld = true ->
+  paths_unambiguousb Ld = true ->
+  forall (cfg : string) (E : list sid) (F : fs),
+  dataset_ok Ld cfg E F ->
+  forall (id s : string) (l : list string),
+  guarded Ld s ->
+  tree_guard Ld cfg E s ->
+  ffind Ld F (FPaths id cfg) s = Ok l ->
+  NoDup l /\ (forall e : string, In e l <-> In e (map s_string E) /\ matched Ld s e).
+Proof. exact find_paths_denotes_guarded. Qed.
+Print Assumptions C10_find_paths_denotes_guarded.
+
+(* the decidable guard is sound *)
+Theorem C10_tree_guardb_sound : forall (Ld : Loaded) (cfg : string) (E : list sid) (s : string),
+  tree_guardb Ld cfg E s = true -> tree_guard Ld cfg E s.
+Proof. exact tree_guardb_sound. Qed.
+Print Assumptions C10_tree_guardb_sound.
+
+(* without [types_covered]: the members of E matched by a denoted typed search of their own type *)
+Theorem C10_find_paths_denotes_typed :
+  forall (c : Conf) (Ld : Loaded),
+  load c = Some Ld ->
+  wf_loadedb Ld = true ->
+  unfold_conf_okb Ld = true ->
+  paths_unambiguousb Ld = true ->
+  forall (cfg : string) (E : list sid) (F : fs),
+  dataset_ok Ld cfg E F ->
+  forall (id s : string) (l : list string),
+  search_ok s = true ->
+  shortcut Ld s = false ->
+  tree_guard0 Ld cfg s ->
+  ffind Ld F (FPaths id cfg) s = Ok l ->
+  forall e : string, In e l <-> (exists x : sid, In x E /\ e = s_string x /\ matched_typed Ld s x).
+Proof. exact find_paths_denotes_typed. Qed.
+Print Assumptions C10_find_paths_denotes_typed.
+
+(* with a trailing url-safe query *)
+Theorem C10_find_paths_query_denotes :
+  forall (c : Conf) (Ld : Loaded),
+  load c = Some Ld ->
+  wf_loadedb Ld = true ->
+  unfold_conf_okb Ld = true ->
+  paths_unambiguousb Ld = true ->
+  forall (cfg : string) (E : list sid) (F : fs),
+  dataset_ok Ld cfg E F ->
+  forall (id body : string) (qd : list (string * string)) (l : list string),
+  search_ok body = true ->
+  query_okb qd = true ->
+  ~ In "" (bodies Ld body) ->
+  shortcut Ld (body ++ "?" ++ query_str qd) = false ->
+  tree_guard Ld cfg E (body ++ "?" ++ query_str qd) ->
+  ffind Ld F (FPaths id cfg) (body ++ "?" ++ query_str qd) = Ok l ->
+  NoDup l /\ (forall e : string, In e l <-> In e (map s_string E) /\ matched_by (denotes_q Ld body qd) e).
+Proof. exact find_paths_query_denotes. Qed.
+Print Assumptions C10_find_paths_query_denotes.
+
+(* FindInPaths.star_search over a data set returns no duplicates *)
+Theorem C10_paths_star_nodup :
+  forall (c : Conf) (Ld : Loaded),
+  load c = Some Ld ->
+  wf_loadedb Ld = true ->
+  paths_unambiguousb Ld = true ->
+  forall (cfg : string) (E : list sid) (F : fs),
+  dataset_ok Ld cfg E F ->
+  forall (qs : list sid) (l : list string), searches_ok Ld cfg qs -> paths_star Ld F cfg qs = Ok l -> NoDup l.
+Proof. exact paths_star_NoDup_dataset. Qed.
+Print Assumptions C10_paths_star_nodup.
+
+(* tree finder = list finder over the strings of the data set, for the whole [find] *)
+Theorem C10_find_paths_eq_find_list :
+  forall (c : Conf) (Ld : Loaded),
+  load c = Some Ld ->
+  wf_loadedb Ld = true ->
+  unfold_conf_okb Ld = true ->
+  paths_unambiguousb Ld = true ->
+  forall (cfg : string) (E : list sid) (F : fs),
+  dataset_ok Ld cfg E F ->
+  forall (id s : string) (l l' : list string),
+  guarded Ld s ->
+  tree_guard Ld cfg E s ->
+  ffind Ld F (FPaths id cfg) s = Ok l ->
+  find_list Ld (map s_string E) s = Ok l' -> forall e : string, In e l <-> In e l'.
+Proof. exact find_paths_eq_find_list. Qed.
+Print Assumptions C10_find_paths_eq_find_list.
+
+(* rule 1 for the tree finder *)
+Theorem C10_tree_comma_rule :
+  forall (c : Conf) (Ld : Loaded),
+  load c = Some Ld ->
+  wf_loadedb Ld = true ->
+  unfold_conf_okb Ld = true ->
+  paths_unambiguousb Ld = true ->
+  forall (cfg : string) (E : list sid) (F : fs),
+  dataset_ok Ld cfg E F ->
+  forall (id : string) (pre : list string) (a b : string) (post l la lb : list string),
+  Forall noslash pre ->
+  Forall noslash post ->
+  alt_okb a = true ->
+  alt_okb b = true ->
+  (post = [] -> a <> "" /\ b <> "") ->
+  search_ok (mk pre (a ++ "," ++ b) post) = true ->
+  shortcut_okb Ld (mk pre (a ++ "," ++ b) post) = true ->
+  tree_guard Ld cfg E (mk pre (a ++ "," ++ b) post) ->
+  search_ok (mk pre a post) = true ->
+  shortcut_okb Ld (mk pre a post) = true ->
+  tree_guard Ld cfg E (mk pre a post) ->
+  search_ok (mk pre b post) = true ->
+  shortcut_okb Ld (mk pre b post) = true ->
+  tree_guard Ld cfg E (mk pre b post) ->
+  ffind Ld F (FPaths id cfg) (mk pre (a ++ "," ++ b) post) = Ok l ->
+  ffind Ld F (FPaths id cfg) (mk pre a post) = Ok la ->
+  ffind Ld F (FPaths id cfg) (mk pre b post) = Ok lb ->
+  NoDup l /\ (forall e : string, In e l <-> In e la \/ In e lb).
+Proof. exact tree_comma_rule2. Qed.
+Print Assumptions C10_tree_comma_rule.
+
+Theorem C10_tree_comma_rule_n :
+  forall (c : Conf) (Ld : Loaded),
+  load c = Some Ld ->
+  wf_loadedb Ld = true ->
+  unfold_conf_okb Ld = true ->
+  paths_unambiguousb Ld = true ->
+  forall (cfg : string) (E : list sid) (F : fs),
+  dataset_ok Ld cfg E F ->
+  forall (id : string) (pre alts post l : list string) (ls : list (list string)),
+  alts <> [] ->
+  Forall noslash pre ->
+  Forall noslash post ->
+  Forall (fun a : string => alt_okb a = true) alts ->
+  (post = [] -> Forall (fun a : string => a <> "") alts) ->
+  search_ok (mk pre (join "," alts) post) = true ->
+  shortcut_okb Ld (mk pre (join "," alts) post) = true ->
+  tree_guard Ld cfg E (mk pre (join "," alts) post) ->
+  (forall a : string,
+   In a alts ->
+   search_ok (mk pre a post) = true /\ shortcut_okb Ld (mk pre a post) = true /\ tree_guard Ld cfg E (mk pre a post)) ->
+  ffind Ld F (FPaths id cfg) (mk pre (join "," alts) post) = Ok l ->
+  Forall2 (fun (a : string) (l' : list string) => ffind Ld F (FPaths id cfg) (mk pre a post) = Ok l') alts ls ->
+  NoDup l /\ (forall e : string, In e l <-> (exists l' : list string, In l' ls /\ In e l')).
+Proof. exact tree_comma_rule. Qed.
+Print Assumptions C10_tree_comma_rule_n.
+
+(* rule 2 for the tree finder *)
+Theorem C10_tree_alias_rule :
+  forall (c : Conf) (Ld : Loaded),
+  load c = Some Ld ->
+  wf_loadedb Ld = true ->
+  unfold_conf_okb Ld = true ->
+  paths_unambiguousb Ld = true ->
+  forall (cfg : string) (E : list sid) (F : fs),
+  dataset_ok Ld cfg E F ->
+  forall (id : string) (pre : list string) (a : string) (ms l : list string) (ls : list (list string)),
+  Forall noslash pre ->
+  noslash a ->
+  dget (c_extension_alias (l_conf Ld)) a = Some ms ->
+  a <> "" ->
+  mem_c "," a = false ->
+  Forall (fun m : string => dmem (c_extension_alias (l_conf Ld)) m = false) ms ->
+  search_ok (mk pre a []) = true ->
+  shortcut_okb Ld (mk pre a []) = true ->
+  tree_guard Ld cfg E (mk pre a []) ->
+  (forall m : string,
+   In m ms ->
+   search_ok (mk pre m []) = true /\ shortcut_okb Ld (mk pre m []) = true /\ tree_guard Ld cfg E (mk pre m [])) ->
+  ffind Ld F (FPaths id cfg) (mk pre a []) = Ok l ->
+  Forall2 (fun (m : string) (l' : list string) => ffind Ld F (FPaths id cfg) (mk pre m []) = Ok l') ms ls ->
+  NoDup l /\ (forall e : string, In e l <-> (exists l' : list string, In l' ls /\ In e l')).
+Proof. exact tree_alias_rule. Qed.
+Print Assumptions C10_tree_alias_rule.
+
+(* rule 3 for the tree finder *)
+Theorem C10_tree_dstar_rule :
+  forall (c : Conf) (Ld : Loaded),
+  load c = Some Ld ->
+  wf_loadedb Ld = true ->
+  unfold_conf_okb Ld = true ->
+  paths_unambiguousb Ld = true ->
+  forall (cfg : string) (E : list sid) (F : fs),
+  dataset_ok Ld cfg E F ->
+  forall (id : string) (pre post l : list string),
+  pre <> [] ->
+  Forall noslash pre ->
+  Forall noslash post ->
+  (post = [] -> dmem (c_extension_alias (l_conf Ld)) "**" = false) ->
+  (post = [] -> dmem (c_extension_alias (l_conf Ld)) "*" = false) ->
+  (post = [] -> lastpre_ok Ld pre) ->
+  search_ok (mk pre "**" post) = true ->
+  shortcut Ld (mk pre "**" post) = false ->
+  tree_guard Ld cfg E (mk pre "**" post) ->
+  ffind Ld F (FPaths id cfg) (mk pre "**" post) = Ok l ->
+  NoDup l /\
+  (forall e : string, In e l <-> In e (map s_string E) /\ (exists n : nat, matched_by (levels_on Ld pre n post) e)).
+Proof. exact tree_dstar_rule. Qed.
+Print Assumptions C10_tree_dstar_rule.
+
+(* ... every result of pre/**/post is a result of one of the n-level searches *)
+Theorem C10_tree_dstar_rule_incl :
+  forall (c : Conf) (Ld : Loaded),
+  load c = Some Ld ->
+  wf_loadedb Ld = true ->
+  unfold_conf_okb Ld = true ->
+  paths_unambiguousb Ld = true ->
+  forall (cfg : string) (E : list sid) (F : fs),
+  dataset_ok Ld cfg E F ->
+  forall (id : string) (pre post l : list string) (e : string),
+  pre <> [] ->
+  Forall noslash pre ->
+  Forall noslash post ->
+  (post = [] -> dmem (c_extension_alias (l_conf Ld)) "**" = false) ->
+  (post = [] -> dmem (c_extension_alias (l_conf Ld)) "*" = false) ->
+  (post = [] -> lastpre_ok Ld pre) ->
+  search_ok (mk pre "**" post) = true ->
+  shortcut Ld (mk pre "**" post) = false ->
+  tree_guard Ld cfg E (mk pre "**" post) ->
+  ffind Ld F (FPaths id cfg) (mk pre "**" post) = Ok l ->
+  In e l ->
+  exists n : nat,
+    forall ln : list string,
+    search_ok (mkn pre n post) = true ->
+    shortcut_okb Ld (mkn pre n post) = true ->
+    tree_guard Ld cfg E (mkn pre n post) ->
+    contains "**" (mkn pre n post) = false ->
+    ffind Ld F (FPaths id cfg) (mkn pre n post) = Ok ln -> In e ln.
+Proof. exact tree_dstar_rule_incl. Qed.
+Print Assumptions C10_tree_dstar_rule_incl.
+
+(* ... and a level all of whose typed searches are of a leaf type is included *)
+Theorem C10_tree_dstar_rule_level :
+  forall (c : Conf) (Ld : Loaded),
+  load c = Some Ld ->
+  wf_loadedb Ld = true ->
+  unfold_conf_okb Ld = true ->
+  paths_unambiguousb Ld = true ->
+  forall (cfg : string) (E : list sid) (F : fs),
+  dataset_ok Ld cfg E F ->
+  forall (id : string) (pre post l : list string) (n : nat) (ln : list string),
+  pre <> [] ->
+  Forall noslash pre ->
+  Forall noslash post ->
+  (post = [] -> dmem (c_extension_alias (l_conf Ld)) "**" = false) ->
+  (post = [] -> dmem (c_extension_alias (l_conf Ld)) "*" = false) ->
+  (post = [] -> lastpre_ok Ld pre) ->
+  search_ok (mk pre "**" post) = true ->
+  shortcut Ld (mk pre "**" post) = false ->
+  tree_guard Ld cfg E (mk pre "**" post) ->
+  ffind Ld F (FPaths id cfg) (mk pre "**" post) = Ok l ->
+  (forall x : sid, plain_denotes Ld (mkn pre n post) x -> levels_on Ld pre n post x) ->
+  search_ok (mkn pre n post) = true ->
+  shortcut_okb Ld (mkn pre n post) = true ->
+  tree_guard Ld cfg E (mkn pre n post) ->
+  contains "**" (mkn pre n post) = false ->
+  ffind Ld F (FPaths id cfg) (mkn pre n post) = Ok ln -> incl ln l.
+Proof. exact tree_dstar_rule_level. Qed.
+Print Assumptions C10_tree_dstar_rule_level.
+
+(* rule 4 for the tree finder *)
+Theorem C10_tree_filter_rule :
+  forall (c : Conf) (Ld : Loaded),
+  load c = Some Ld ->
+  wf_loadedb Ld = true ->
+  unfold_conf_okb Ld = true ->
+  paths_unambiguousb Ld = true ->
+  forall (cfg : string) (E : list sid) (F : fs),
+  dataset_ok Ld cfg E F ->
+  forall (id body k v : string) (l lf : list string),
+  search_ok body = true ->
+  contains "**" body = false ->
+  narrow_stableb Ld body = true ->
+  shortcut_okb Ld body = true ->
+  tree_guard Ld cfg E body ->
+  atomb k = true ->
+  atomb v = true ->
+  literalb v = true ->
+  startswith "~" v = false ->
+  value_alts Ld k v = [v] ->
+  filt_okb Ld body k v = true ->
+  ~ In "" (bodies Ld body) ->
+  shortcut Ld (body ++ "?" ++ k ++ "=" ++ v) = false ->
+  tree_guard Ld cfg E (body ++ "?" ++ k ++ "=" ++ v) ->
+  ffind Ld F (FPaths id cfg) body = Ok l ->
+  ffind Ld F (FPaths id cfg) (body ++ "?" ++ k ++ "=" ++ v) = Ok lf ->
+  NoDup lf /\ (forall e : string, In e lf <-> In e l /\ field_in Ld body k e v).
+Proof. exact tree_filter_rule. Qed.
+Print Assumptions C10_tree_filter_rule.
+
+(* rule 5 for the tree finder *)
+Theorem C10_tree_literal_rule :
+  forall (c : Conf) (Ld : Loaded),
+  load c = Some Ld ->
+  wf_loadedb Ld = true ->
+  unfold_conf_okb Ld = true ->
+  paths_unambiguousb Ld = true ->
+  forall (cfg : string) (E : list sid) (F : fs),
+  dataset_ok Ld cfg E F ->
+  forall (id : string) (pre : list string) (v : string) (post l lv : list string),
+  Forall noslash pre ->
+  Forall noslash post ->
+  noslash v ->
+  literalb v = true ->
+  mem_c "," v = false ->
+  (post = [] -> v <> "" /\ dmem (c_extension_alias (l_conf Ld)) v = false) ->
+  (post = [] -> dmem (c_extension_alias (l_conf Ld)) "*" = false) ->
+  lit_ok Ld pre post v ->
+  search_ok (mk pre "*" post) = true ->
+  contains "**" (mk pre "*" post) = false ->
+  narrow_stableb Ld (mk pre "*" post) = true ->
+  shortcut_okb Ld (mk pre "*" post) = true ->
+  tree_guard Ld cfg E (mk pre "*" post) ->
+  search_ok (mk pre v post) = true ->
+  contains "**" (mk pre v post) = false ->
+  narrow_stableb Ld (mk pre v post) = true ->
+  shortcut_okb Ld (mk pre v post) = true ->
+  tree_guard Ld cfg E (mk pre v post) ->
+  ffind Ld F (FPaths id cfg) (mk pre "*" post) = Ok l ->
+  ffind Ld F (FPaths id cfg) (mk pre v post) = Ok lv ->
+  NoDup lv /\ (forall e : string, In e lv <-> In e l /\ nth_error (split_c "/" e) (Datatypes.length pre) = Some v).
+Proof. exact tree_literal_rule. Qed.
+Print Assumptions C10_tree_literal_rule.
+
+(** ** The tree rules instantiated: a data set materialised as a tree on the configuration of this run *)
+
+Definition mks (s : string) : sid := match Sid L s with Ok x => x | Raise _ => empty_sid end.
+Definition pth (x : sid) : string := match sid_path L x "" with Ok (Some p) => p | _ => "" end.
+Definition E1 : list sid := map mks
+  ["hamlet/a/char/ophelia"; "hamlet/a/char/claudius"; "hamlet/a/prop/skull";
+   "hamlet/a/char/ophelia/model/v001/w/ma"; "hamlet/a/char/ophelia/model/v001/w/mb";
+   "hamlet/a/char/ophelia/model/v001/w/mp4"; "hamlet/a/char/ophelia/model"; "hamlet/s/sq010/sh0010"].
+Definition F1 : fs := map (fun e => (pth e, Dir)) E1.
+Definition tfind (s : string) : outcome (list string) := ffind L F1 (FPaths "" "") s.
+Definition tguard (s : string) : bool := search_ok s && shortcut_okb L s && tree_guardb L "" E1 s.
+
+Lemma conf_paths_ok : paths_unambiguousb L = true.
+Proof. vm_compute. reflexivity. Qed.
+
+Lemma data1_ok : dataset_ok L "" E1 F1.
+Proof. apply dataset_okb_sound. vm_compute. reflexivity. Qed.
+
+(* the guards of rule 0 hold for a comma search, an alias search and a "**" search (and for their alternatives / members),
+   with the computed results of both sides of each rule *)
+Example C10_tree_instance :
+  dataset_okb L "" E1 F1 = true /\
+  forallb tguard ["hamlet/a/char/ophelia,claudius"; "hamlet/a/char/ophelia"; "hamlet/a/char/claudius";
+                  "hamlet/a/char/ophelia/model/v001/w/maya"; "hamlet/a/char/ophelia/model/v001/w/ma";
+                  "hamlet/a/char/ophelia/model/v001/w/mb"; "hamlet/a/char/**"; "hamlet/a/*/*"; "hamlet/a/char/*"] = true /\
+  tree_guardb L "" E1 "hamlet/a/*/*?assettype=char" = true /\
+  (* comma *)
+  tfind "hamlet/a/char/ophelia,claudius" = Ok ["hamlet/a/char/claudius"; "hamlet/a/char/ophelia"] /\
+  tfind "hamlet/a/char/ophelia" = Ok ["hamlet/a/char/ophelia"] /\
+  tfind "hamlet/a/char/claudius" = Ok ["hamlet/a/char/claudius"] /\
+  (* alias *)
+  tfind "hamlet/a/char/ophelia/model/v001/w/maya" =
+    Ok ["hamlet/a/char/ophelia/model/v001/w/ma"; "hamlet/a/char/ophelia/model/v001/w/mb"] /\
+  tfind "hamlet/a/char/ophelia/model/v001/w/ma" = Ok ["hamlet/a/char/ophelia/model/v001/w/ma"] /\
+  tfind "hamlet/a/char/ophelia/model/v001/w/mb" = Ok ["hamlet/a/char/ophelia/model/v001/w/mb"] /\
+  (* "**" *)
+  tfind "hamlet/a/char/**" =
+    Ok ["hamlet/a/char/ophelia/model/v001/w/ma"; "hamlet/a/char/ophelia/model/v001/w/mb";
+        "hamlet/a/char/ophelia/model/v001/w/mp4"] /\
+  (* filter, literal *)
+  tfind "hamlet/a/*/*" = Ok ["hamlet/a/char/claudius"; "hamlet/a/char/ophelia"; "hamlet/a/prop/skull"] /\
+  tfind "hamlet/a/*/*?assettype=char" = Ok ["hamlet/a/char/claudius"; "hamlet/a/char/ophelia"] /\
+  tfind "hamlet/a/char/*" = Ok ["hamlet/a/char/claudius"; "hamlet/a/char/ophelia"] /\
+  (* the same searches by the list finder over the strings of the data set *)
+  find_list L (map s_string E1) "hamlet/a/char/ophelia,claudius" = Ok ["hamlet/a/char/claudius"; "hamlet/a/char/ophelia"] /\
+  find_list L (map s_string E1) "hamlet/a/char/**" =
+    Ok ["hamlet/a/char/ophelia/model/v001/w/ma"; "hamlet/a/char/ophelia/model/v001/w/mb";
+        "hamlet/a/char/ophelia/model/v001/w/mp4"].
+Proof. vm_compute. repeat split; reflexivity. Qed.
+Print Assumptions C10_tree_instance.
+
+Ltac tguard_calc := match goal with |- tree_guard _ _ _ _ => apply tree_guardb_sound; calc end.
+
+(** Rule 0 on the tree *)
+Example C10_tree_denotes_hamlet :
+  NoDup ["hamlet/a/char/claudius"; "hamlet/a/char/ophelia"] /\
+  forall e, In e ["hamlet/a/char/claudius"; "hamlet/a/char/ophelia"] <->
+            In e (map s_string E1) /\ matched L "hamlet/a/char/*" e.
+Proof.
+  apply (find_paths_denotes Hamlet.the_conf L Hamlet.the_loaded_eq Hamlet.conf_wf conf_unfold_ok conf_paths_ok
+           "" E1 F1 data1_ok "" "hamlet/a/char/*"); try calc. tguard_calc.
+Qed.
+
+(** Rule 1 on the tree *)
+Example C10_tree_comma_hamlet :
+  NoDup ["hamlet/a/char/claudius"; "hamlet/a/char/ophelia"] /\
+  forall e, In e ["hamlet/a/char/claudius"; "hamlet/a/char/ophelia"] <->
+            In e ["hamlet/a/char/ophelia"] \/ In e ["hamlet/a/char/claudius"].
+Proof.
+  apply (tree_comma_rule2 Hamlet.the_conf L Hamlet.the_loaded_eq Hamlet.conf_wf conf_unfold_ok conf_paths_ok
+           "" E1 F1 data1_ok "" ["hamlet"; "a"; "char"] "ophelia" "claudius" []); try tguard_calc; try calc; try segs.
+  intros _. split; discriminate.
+Qed.
+
+(** Rule 2 on the tree *)
+Example C10_tree_alias_hamlet :
+  NoDup ["hamlet/a/char/ophelia/model/v001/w/ma"; "hamlet/a/char/ophelia/model/v001/w/mb"] /\
+  forall e, In e ["hamlet/a/char/ophelia/model/v001/w/ma"; "hamlet/a/char/ophelia/model/v001/w/mb"] <->
+    exists l', In l' [["hamlet/a/char/ophelia/model/v001/w/ma"]; ["hamlet/a/char/ophelia/model/v001/w/mb"]] /\ In e l'.
+Proof.
+  apply (tree_alias_rule Hamlet.the_conf L Hamlet.the_loaded_eq Hamlet.conf_wf conf_unfold_ok conf_paths_ok
+           "" E1 F1 data1_ok "" ["hamlet"; "a"; "char"; "ophelia"; "model"; "v001"; "w"] "maya" ["ma"; "mb"]);
+    try tguard_calc; try calc; try segs; try discriminate.
+  - intros m [<-|[<-|[]]]; (split; [calc|]; split; [calc | tguard_calc]).
+  - f2.
+Qed.
+
+(** Rule 3 on the tree *)
+Example C10_tree_dstar_hamlet :
+  NoDup ["hamlet/a/char/ophelia/model/v001/w/ma"; "hamlet/a/char/ophelia/model/v001/w/mb";
+         "hamlet/a/char/ophelia/model/v001/w/mp4"] /\
+  forall e, In e ["hamlet/a/char/ophelia/model/v001/w/ma"; "hamlet/a/char/ophelia/model/v001/w/mb";
+                  "hamlet/a/char/ophelia/model/v001/w/mp4"] <->
+    In e (map s_string E1) /\ exists n, matched_by (levels_on L ["hamlet"; "a"; "char"] n []) e.
+Proof.
+  apply (tree_dstar_rule Hamlet.the_conf L Hamlet.the_loaded_eq Hamlet.conf_wf conf_unfold_ok conf_paths_ok
+           "" E1 F1 data1_ok "" ["hamlet"; "a"; "char"] []); try tguard_calc; try calc; try segs; try discriminate.
+  - intros _. calc.
+  - intros _. calc.
+  - intros _ x. vm_compute. tauto.
+Qed.
+
+(** Rule 4 on the tree *)
+Example C10_tree_filter_hamlet :
+  NoDup ["hamlet/a/char/claudius"; "hamlet/a/char/ophelia"] /\
+  forall e, In e ["hamlet/a/char/claudius"; "hamlet/a/char/ophelia"] <->
+    In e ["hamlet/a/char/claudius"; "hamlet/a/char/ophelia"; "hamlet/a/prop/skull"] /\
+    field_in L "hamlet/a/*/*" "assettype" e "char".
+Proof.
+  apply (tree_filter_rule Hamlet.the_conf L Hamlet.the_loaded_eq Hamlet.conf_wf conf_unfold_ok conf_paths_ok
+           "" E1 F1 data1_ok "" "hamlet/a/*/*" "assettype" "char"); try tguard_calc; try calc.
+  vm_compute. intros [H|[]]. discriminate H.
+Qed.
+
+(** Rule 5 on the tree *)
+Example C10_tree_literal_hamlet :
+  NoDup ["hamlet/a/char/ophelia"] /\
+  forall e, In e ["hamlet/a/char/ophelia"] <->
+    In e ["hamlet/a/char/claudius"; "hamlet/a/char/ophelia"] /\ nth_error (split_c "/" e) 3 = Some "ophelia".
+Proof.
+  apply (tree_literal_rule Hamlet.the_conf L Hamlet.the_loaded_eq Hamlet.conf_wf conf_unfold_ok conf_paths_ok
+           "" E1 F1 data1_ok "" ["hamlet"; "a"; "char"] "ophelia" []); try tguard_calc; try calc; try segs.
+  - intros _. split; [discriminate | calc].
+  - intros _. calc.
+  - apply lit_okb_ok. calc.
+Qed.
+
+Print Assumptions C10_tree_denotes_hamlet.
+Print Assumptions C10_tree_comma_hamlet.
+Print Assumptions C10_tree_alias_hamlet.
+Print Assumptions C10_tree_dstar_hamlet.
+Print Assumptions C10_tree_filter_hamlet.
+Print Assumptions C10_tree_literal_hamlet.
